@@ -1001,4 +1001,87 @@ theorem pinv_runX (h : List (POp Text)) (hn : 3 * h.length ≤ u32Max) :
 
 end inv
 
+/-! ### Document layer (`DocLayer`): documents and project sources stay in step -/
+
+section doclayer
+variable {Text : Type}
+
+/-- The invariant: the project holds a text for a key exactly when the document layer holds a
+document for it, and it is the document's content. -/
+def DocInv (s : DocLayer Text) : Prop := ∀ k, s.src k = (s.doc k).map (·.1)
+
+theorem docRemove_inv (s : DocLayer Text) (k : Nat) (i : DocInv s) : DocInv (docRemove s k) := by
+  intro x
+  unfold docRemove
+  cases h : s.doc k with
+  | none => exact i x
+  | some d =>
+    simp only [upd]
+    by_cases e : x = k
+    · simp [e]
+    · simp [e]; exact i x
+
+theorem docEvict1_inv (s : DocLayer Text) (k : Nat) (i : DocInv s) : DocInv (docEvict1 s k) := by
+  unfold docEvict1
+  split
+  · exact docRemove_inv s k i
+  · exact i
+
+theorem docEvict_inv (ks : List Nat) (s : DocLayer Text) (i : DocInv s) :
+    DocInv (ks.foldl docEvict1 s) := by
+  induction ks generalizing s with
+  | nil => exact i
+  | cons k ks ih => exact ih _ (docEvict1_inv s k i)
+
+theorem docStep_inv [DecidableEq Text] (s : DocLayer Text) (o : DOp Text) (i : DocInv s)
+    (hw : match o with | .change k _ => ∃ c, s.doc k = some (c, true) | _ => True) :
+    DocInv (docStep s o) := by
+  cases o with
+  | openDoc k t =>
+    intro x; simp only [docStep, upd]
+    by_cases e : x = k
+    · simp [e]
+    · simp [e]; exact i x
+  | index k t =>
+    simp only [docStep]
+    split
+    · exact i
+    · split
+      · exact i
+      · intro x; simp only [upd]
+        by_cases e : x = k
+        · simp [e]
+        · simp [e]; exact i x
+    · intro x; simp only [upd]
+      by_cases e : x = k
+      · simp [e]
+      · simp [e]; exact i x
+  | change k t =>
+    obtain ⟨c, hc⟩ := hw
+    intro x; simp only [docStep, upd]
+    by_cases e : x = k
+    · simp [e, hc]
+    · simp [e]; exact i x
+  | close k =>
+    intro x; simp only [docStep, upd]
+    by_cases e : x = k
+    · subst e
+      simp only [if_true]
+      rw [i x]
+      cases s.doc x <;> rfl
+    · simp [e]; exact i x
+  | remove k => exact docRemove_inv s k i
+  | evict ks => exact docEvict_inv ks s i
+
+theorem docRun_inv_from [DecidableEq Text] (h : List (DOp Text)) (s : DocLayer Text) (i : DocInv s) (hw : docWf s h) :
+    DocInv (h.foldl docStep s) := by
+  induction h generalizing s with
+  | nil => exact i
+  | cons o rest ih =>
+    obtain ⟨h1, h2⟩ := hw
+    exact ih _ (docStep_inv s o i h1) h2
+
+
+end doclayer
+
 end TrustVerif.C13
